@@ -210,7 +210,9 @@ add(
     "Seeded interleavings of construct/export over 2-4 timelines (SVG/TikZ mixed, most relying on the default scale and default engine options) "
     "run in a fresh process each; every exported document must be byte-identical to the document a fresh process exports for that spec alone, "
     "repeated exports identical, and around every operation the monitor digests the option state (scale domain/range, nested dicts, items) "
-    "of every OTHER live timeline, which must not change. Held = on the histories played.",
+    "of every OTHER live timeline, which must not change. Histories also share the very data dict objects or one options dict between "
+    "timelines, contain value-equal twins (also with numbers in the other numeric type), timelines built without options, failing "
+    "constructions and exports to files that fail late. Held = on the histories played.",
     "Trusted: process isolation of the reference runs, the digest in vmon/mon_export.py. datetime.time inputs excluded.",
     "DESIGN.md section 4, C10",
 )
